@@ -41,7 +41,7 @@ RULE = ('plan = client operation (21) x KMIP version (6) x scripted response '
         'a non-default payload or a failure and the transport plan was not '
         '"whole". Distinct = (operation, version, response digest, '
         'transport kind).')
-PROBES = ['version_switched_on_the_same_client', 'prior_call_with_all_optional_fields', 'success_returned', 'failure_raised', 'all_cut_offsets',
+PROBES = ['response_value_longer_than_container', 'version_switched_on_the_same_client', 'prior_call_with_all_optional_fields', 'success_returned', 'failure_raised', 'all_cut_offsets',
           'all_split_points', 'reset', 'timeout', 'trailing_bytes',
           'request_accepted_by_server_decoder', 'non_ascii_message',
           'empty_message', 'get_object_roundtrip']
@@ -663,9 +663,16 @@ def generate(rng, tier, index):
         plan['transport'] = {'kind': 'all_splits'}
     elif x < 0.8:
         plan['transport'] = {'kind': 'all_cuts'}
-    elif x < 0.9:
+    elif x < 0.87:
         plan['transport'] = {'kind': r.choice(['reset', 'timeout']),
                              'at': r.choice([0, 1, 7, 8, 9, 40, 100])}
+    elif x < 0.94:
+        # a response that is framed correctly but whose body is corrupted
+        # (grammar-aware): if a value in it announces more bytes than its
+        # container holds, the client must raise, never return data
+        from sim import mutate
+        plan['transport'] = {'kind': 'corrupt',
+                             'muts': [mutate.gen_spec(r) for _ in range(6)]}
     else:
         plan['transport'] = {'kind': 'trailing'}
     return plan
@@ -729,7 +736,7 @@ def execute(plan):
     kernel.reset(None, plan['seed'])
     probes = dict((p, 0) for p in PROBES)
     faults = {'split_response': 0, 'truncate_response': 0, 'reset': 0,
-              'timeout': 0, 'trailing_bytes': 0}
+              'timeout': 0, 'trailing_bytes': 0, 'corrupt_response': 0}
     viol = []
     op = plan['op']
     ver = tuple(plan['ver'])
@@ -855,6 +862,26 @@ def execute(plan):
         probes[k] += 1
         if out[0] == 'ok':
             flag('interrupted-response-returned-data', why=k, at=at)
+    elif k == 'corrupt':
+        from sim import mutate, monitors
+        from sim.props import c12
+        for spec in tr['muts']:
+            try:
+                bad = mutate.apply(raw, spec)
+            except Exception:
+                continue
+            fr, left = monitors.split_frames(bad)
+            if bad == raw or len(fr) != 1 or left:
+                continue
+            out, _ = call(plan, bad, {})
+            evals += 1
+            faults['corrupt_response'] += 1
+            if c12.leaf_truncated(bad):
+                probes['response_value_longer_than_container'] += 1
+                if out[0] == 'ok':
+                    flag('undecodable-response-returned-data',
+                         why=spec.get('kind'), returned=out[1],
+                         response=bad.hex()[:600])
     elif k == 'trailing':
         out, _ = call(plan, raw, {'trailing': b'\x42\x00\x7b\x01\x00\x00'})
         evals += 1
